@@ -320,4 +320,42 @@ TailFinFamily(maxdepth, counts) ==
 TailInfFamily(maxdepth) ==
   {[forms |-> TailProgram(TRUE, sh, va, cs, Num(-1)), tag |-> <<"tailinf", sh, va, cs>>] :
       sh \in TailShapes, va \in {0, 1, 2}, cs \in CtxSeqs(maxdepth)}
+
+----------------------------------------------------------------------------
+(* C11: the list library applied to every small list (proper, improper, nested) and index *)
+Elts == {MkInt(1), MkSym("a"), False, MkList(<<MkInt(2)>>)}
+ProperLists(n) == UNION {{MkList(sq) : sq \in [1..k -> Elts]} : k \in 0..n}
+ImproperLists == UNION {{ListFromSeq(sq, MkInt(9)) : sq \in [1..k -> {MkInt(1), MkSym("a")}]} : k \in 1..2}
+ListVals == ProperLists(3) \cup ImproperLists \cup {MkInt(5)}
+QV(v) == IF v.t \in {"int", "bool"} THEN Lit(v) ELSE Quote(v)
+UnaryListProcs == {"car", "cdr", "caar", "cadr", "cdar", "cddr", "caaar", "caadr", "cadar", "caddr", "cdaar", "cdadr", "cddar", "cdddr",
+                   "null?", "pair?", "list?", "last-pair"}
+DeepLists == {MkList(<<MkList(<<MkList(<<MkInt(1), MkInt(2)>>), MkInt(3)>>), MkList(<<MkInt(4), MkInt(5)>>), MkInt(6)>>),
+              MkList(<<MkList(<<MkInt(1)>>)>>), MkList(<<MkInt(1), MkList(<<MkInt(2), MkInt(3)>>), MkList(<<>>)>>)}
+TickEach == Fn(<<"x">>, <<Call("tick!", <<Var("x"), Call("list", <<Var("x")>>)>>)>>)
+TickFold == Fn(<<"x", "acc">>, <<Call("tick!", <<Var("x"), Call("cons", <<Var("x"), Var("acc")>>)>>)>>)
+One(tag, e) == [forms |-> <<e>>, tag |-> <<"list", tag>>]
+ListFamily(full) ==
+  LET small == ProperLists(2)
+      idx == -1..4
+  IN   {One("unary", Call(p, <<QV(v)>>)) : p \in UnaryListProcs, v \in ListVals \cup DeepLists}
+  \cup {One("append2", Call("append", <<QV(a), QV(b)>>)) : a \in small, b \in small \cup ImproperLists \cup {MkInt(5)}}
+  \cup {One("append3", Call("append", <<QV(a), QV(b), QV(c)>>)) : a \in ProperLists(1), b \in ProperLists(1), c \in ProperLists(1) \cup {MkInt(5)}}
+  \cup {One("append01", e) : e \in {Call("append", <<>>), Call("append", <<Quote(MkList(<<MkInt(1)>>))>>), Call("append", <<Num(5)>>),
+                                     Call("append", <<Quote(ListFromSeq(<<MkInt(1)>>, MkInt(2))), Quote(MkList(<<MkInt(3)>>))>>)}}
+  \cup {One("index", Call(p, <<QV(v), Num(k)>>)) : p \in {"list-tail", "list-ref"}, v \in (IF full THEN ListVals ELSE ProperLists(2) \cup ImproperLists \cup {MkInt(5)} \cup ProperLists(3)), k \in idx}
+  \cup {One("mem", Call(p, <<QV(x), QV(v)>>)) : p \in {"memq", "memv"}, x \in {MkInt(1), MkSym("a"), False, MkInt(7)}, v \in ListVals}
+  \cup {One("equal", Call("equal?", <<QV(a), QV(b)>>)) : a \in small \cup ImproperLists \cup {MkInt(5)}, b \in small \cup ImproperLists \cup {MkInt(5)}}
+  \cup {One("cons", Call("cons", <<QV(a), QV(b)>>)) : a \in Elts, b \in ProperLists(1) \cup {MkInt(5)}}
+  \cup {One("make-list", Call("make-list", <<Num(k), QV(x)>>)) : k \in -1..3, x \in {MkSym("a"), MkList(<<MkInt(1)>>)}}
+  \cup {One("list", Call("list", [i \in 1..k |-> QV(MkInt(i))])) : k \in 0..3}
+  \cup {One("map", Call(p, <<TickEach, QV(v)>>)) : p \in {"map", "for-each"}, v \in ProperLists(3) \cup ImproperLists}
+  \cup {One("fold", Call(p, <<TickFold, Quote(MkList(<<MkSym("init")>>)), QV(v)>>)) : p \in {"fold-left", "fold-right"}, v \in ProperLists(3)}
+  \cup {One("apply", e) : e \in {Call("apply", <<Var("list"), Num(1), Num(2), Quote(MkList(<<MkInt(3), MkInt(4)>>))>>),
+                                  Call("apply", <<Var("car"), Quote(MkList(<<MkList(<<MkInt(1), MkInt(2)>>)>>))>>),
+                                  Call("apply", <<Var("+"), Quote(MkList(<<MkInt(1), MkInt(2), MkInt(3)>>))>>),
+                                  Call("apply", <<Var("list"), Quote(Nil)>>), Call("apply", <<Var("list")>>),
+                                  Call("apply", <<TickFold, Num(1), Quote(MkList(<<MkList(<<>>)>>))>>),
+                                  Call("apply", <<Var("map"), TickEach, Quote(MkList(<<MkList(<<MkInt(1), MkInt(2)>>)>>))>>),
+                                  Call("apply", <<Var("apply"), Var("list"), Quote(MkList(<<MkInt(1), MkList(<<MkInt(2)>>)>>))>>)}}
 =============================================================================
